@@ -117,6 +117,20 @@ def p_finite(t):
     return a + c
 
 
+def p_tied(t):
+    """Instance-wise losses reported step by step, final value quantised to multiples of 1/2: several
+    COMPLETE trials tie exactly for the best value while their per-step values differ (the
+    WilcoxonPruner compares the running trial with study.best_trial: WHICH of the tied trials is
+    'best' must not depend on the storage)."""
+    x = t.suggest_float("x", 0, 1)
+    vals = [abs(x - 0.5) + ((t.number * 7 + i * 3) % 5) / 10 for i in range(8)]
+    for i, v in enumerate(vals):
+        t.report(v, i)
+        if t.should_prune():
+            raise optuna.TrialPruned()
+    return round(sum(vals) / len(vals) * 2) / 2
+
+
 def p_nan_grid(t):
     """Grid whose values include NaN (supported by GridSampler): after a JSON round trip the stored
     NaN is another object than the sampler's own."""
@@ -138,6 +152,7 @@ PROGRAMS: dict[str, tuple[Callable, int, bool, dict | None]] = {
     "multi": (p_multi, 2, False, None),
     "multi_cond": (p_multi_cond, 2, False, None),
     "finite": (p_finite, 1, True, None),
+    "tied": (p_tied, 1, False, None),
     # 6 cells < 10 trials: the sampler has to recognise its own visited cells and stop the run
     "nan_grid": (p_nan_grid, 1, False, {"x": [0.5, float("nan")], "y": [1, 2, 3]}),
 }
@@ -175,11 +190,12 @@ def make_pruner(name: str) -> Any:
         "SHA": lambda: p.SuccessiveHalvingPruner(),
         "Hyperband": lambda: p.HyperbandPruner(min_resource=1, max_resource=4, reduction_factor=2),
         "Patient": lambda: p.PatientPruner(p.MedianPruner(n_startup_trials=2), patience=1),
+        "Wilcoxon": lambda: p.WilcoxonPruner(p_threshold=0.3, n_startup_steps=2),
     }[name]()
 
 
 SAMPLERS = ["Random", "TPE", "TPE-mv", "NSGAII", "NSGAIII", "QMC", "BruteForce", "Grid"]
-PRUNERS = ["Nop", "Median", "Percentile", "SHA", "Hyperband", "Patient"]
+PRUNERS = ["Nop", "Median", "Percentile", "SHA", "Hyperband", "Patient", "Wilcoxon"]
 
 
 def compatible(sampler: str, prog: str, pruner: str) -> bool:
@@ -192,7 +208,9 @@ def compatible(sampler: str, prog: str, pruner: str) -> bool:
         return False  # NaN as a categorical choice is only claimed for the grid sampler
     if n_obj > 1 and pruner != "Nop":
         return False  # pruning is not supported for multi-objective studies
-    if prog not in ("report", "sparse") and pruner != "Nop":
+    if (pruner == "Wilcoxon") != (prog == "tied"):
+        return False  # the instance-wise pruner goes with the instance-wise program (and only with it)
+    if prog not in ("report", "sparse", "tied") and pruner != "Nop":
         return False  # pruners only matter to the program that reports
     if sampler == "GP" and (n_obj > 1 and False):
         return False
